@@ -60,8 +60,7 @@ RULE = ('streams: typed (type-directed terms, no injected defects), mixite (if-e
 # in /repo: their former witness streams ('F4', 'N2', 'N3', 'N5') are ordinary cases now (no finding label)
 FINDING_OF_ISSUE = [('implArith', 'F12-implicit-arith'), ('tmpFlip', 'N1-tmpvar-explicit-flip'),
                     ('softArith', 'N4-soft-int-arith')]
-FINDING_OF_STREAM = {'F12': 'F12-implicit-arith', 'N1': 'N1-tmpvar-explicit-flip', 'N4': 'N4-soft-int-arith',
-                     'N6': 'N6-const-array-element-implicit'}
+FINDING_OF_STREAM = {'F12': 'F12-implicit-arith', 'N1': 'N1-tmpvar-explicit-flip', 'N4': 'N4-soft-int-arith'}
 
 # ------------------------------------------------------------------ real side
 
@@ -372,7 +371,8 @@ def simulate(cls, case, vectors):
 # ------------------------------------------------------------------ one batch
 
 REPAIRED_STREAMS = {'F4': 'regression-F4-implicit-rhs-too-wide', 'N2': 'regression-N2-ifexp-width',
-                    'N3': 'regression-N3-explicit-const-fold', 'N5': 'regression-N5-ifexp-bool-branch'}
+                    'N3': 'regression-N3-explicit-const-fold', 'N5': 'regression-N5-ifexp-bool-branch',
+                    'N6': 'regression-N6-const-array-element-implicit'}
 
 def finding_sig(case, issues):
   if case['stream'] in FINDING_OF_STREAM: return FINDING_OF_STREAM[case['stream']]
@@ -579,7 +579,7 @@ def process_src(ck, cases, nvec):
         ck.hist('sim_outcome_src', 'ok')
         if sweep and not wviol: widths_ok()
       if bad is None and not wviol: widths_ok()
-      f = FINDING_OF_STREAM.get(c['stream'], 'unexplained')
+      f = FINDING_OF_STREAM.get(c['stream'], REPAIRED_STREAMS.get(c['stream'], 'unexplained'))
       if bad is not None:
         ck.hist('violations', f + ' @' + c['stream'])
         ck.violation('accepted-block-raises-width-error', {'finding': f}, {'src_case': c, 'inputs': bad[0]},
